@@ -1688,6 +1688,31 @@ pub fn run_lj2_case(spec: &Spec, out: &mut dyn Write) -> GeomOut {
     if c1.is_none() && e1 >= 0. && eab.is_finite() && eab < -e1 * (1. + 1e-12) - 1e-300 {
         add(&mut f, "C13", format!("energy {:?} below the minimum -eps = {:?}", eab, -e1));
     }
+    // the same pair far from the origin (far=T: both particles moved by (T, -T)): the energy depends on the separation the
+    // coordinates actually have there, however large the coordinates are
+    if let Some(tt) = spec.fo("far") {
+        let (q1, q2) = ((p1.0 + tt, p1.1 - tt), (p2.0 + tt, p2.1 - tt));
+        let (a3, b3) = (mk(q1.0, q1.1, s1, e1, c1), mk(q2.0, q2.1, s2, e2, c2));
+        let e3 = a3.energy(&b3);
+        let r3 = ((q1.0 - q2.0).powi(2) + (q1.1 - q2.1).powi(2)).sqrt();
+        let v3 = |d: f64| 4. * e1 * ((s1 / d).powf(12.) - (s1 / d).powf(6.));
+        let want3 = match c1 {
+            Some(c) if r3 >= c => 0.,
+            Some(c) => v3(r3) - v3(c),
+            None => v3(r3),
+        };
+        let near3 = c1.map(|c| (r3 - c).abs() < 1e-9 * c).unwrap_or(false);
+        // (the two terms of a shifted potential cancel near the cutoff: the tolerance follows their size)
+        let mag3 = v3(r3).abs() + c1.map(|c| v3(c).abs()).unwrap_or(0.) + 4. * e1.abs() * (s1 / r3).powf(12.);
+        if r3 > 0. && e3.is_finite() && want3.is_finite() && !near3 && (e3 - want3).abs() > 1e-9 * (1. + want3.abs()) + 1e-11 * mag3 {
+            add(&mut f, "C13", format!(
+                "two particles {:e} from the origin, {:?} apart (sigma {:?}, eps {:?}, cutoff {:?}): energy {:?}, the shifted truncated 12-6 law gives {:?}",
+                tt, r3, s1, e1, c1, e3, want3));
+        }
+        if r3 > 0. && want3.is_finite() && !near3 && !e3.is_finite() {
+            add(&mut f, "C13", format!("two particles {:e} from the origin, {:?} apart: energy {:?}, the law gives {:?}", tt, r3, e3, want3));
+        }
+    }
     // invariance under a common rigid motion / reflection
     if let Some(c) = spec.kv.get("common") {
         let v: Vec<f64> = c.split(':').map(parse_f).collect();
